@@ -164,6 +164,11 @@ Theorem C44_wrap_checker_spec : forall text width ls,
   lines_ok text width ls = true -> wrap_prop text width ls.
 Proof. exact lines_ok_spec. Qed.
 
+(** write_wrapped on a plain formatter writes exactly wrap_bytes' lines joined by newlines. *)
+Theorem C44_wrapped_checker_spec : forall ls wrapped,
+  wrapped_okb ls wrapped = true <-> wrapped = join_lines ls.
+Proof. exact wrapped_okb_spec. Qed.
+
 Check @C44_width_bound : forall (A : Type) (cw : A -> nat) text ell max out w,
   elide_start cw text ell max = EOut out w \/ elide_end cw text ell max = EOut out w ->
   (swidth cw out <= max)%nat.
